@@ -1,9 +1,112 @@
+import CoupeModel.Model.Prologue
 import CoupeModel.Driver.Util
 
 namespace Coupe.Driver.C20
-open Coupe.Driver
+open Coupe.Prologue Coupe.Driver
 
-/-- (stub; not built yet) -/
-def handle (_toks : List String) : String := "bad-op"
+/-- `T::from_f64(sum.to_f64().unwrap() * tolerance)` for `T = i64` is `Some`
+(num-traits: `None` outside the `i64` range or for NaN). -/
+def tolConvertible (sum : Int) (tolBits : Nat) : Bool :=
+  let x := Float.ofInt sum * Float.ofBits (UInt64.ofNat tolBits)
+  if x.isNaN then false
+  else if x < -9223372036854775808.0 || x ≥ 9223372036854775808.0 then false
+  else true
+
+def algoOfString : String → Option Algo
+  | "rcb" => some .rcb
+  | "rib" => some .rib
+  | "greedy" => some .greedy
+  | "kk" => some .kk
+  | "ckk" => some .ckk
+  | "vnbest" => some .vnBest
+  | "vnfirst" => some .vnFirst
+  | "fm" => some .fm
+  | "arcswap" => some .arcSwap
+  | "hilbert2d" => some .hilbert2d
+  | "hilbert3d" => some .hilbert3d
+  | _ => none
+
+/-- Is the array after the call equal to its pre-call contents?  (`none`: the
+algorithm body ran, its writes are not the prologue's business.) -/
+def sameArray (p0 : List Nat) (e : Effect) : Option Bool :=
+  (e.apply p0).map (fun q => decide (q = p0))
+
+def touchWord (p0 : List Nat) (e : Effect) : String :=
+  match sameArray p0 e with
+  | some true => "untouched"
+  | some false => "modified"
+  | none => "body-entered"
+
+def panicClass : PanicSite → String
+  | .addOverflow => "attempt to add with overflow"
+  | .unwrapNone => "called `Option::unwrap()` on a `None` value"
+  | .debugAssert => "assertion"
+  | .divByZero => "attempt to divide by zero"
+  | .floatOutOfModel => "float"
+
+/-- `out` line: the returned variant with its fields and, for errors, whether
+the array still has its pre-call contents. -/
+def renderOut (p0 : List Nat) (r : Result) : String :=
+  match r.out with
+  | .ok | .proceed => "ok"
+  | .err .notFound => "err NotFound " ++ touchWord p0 r.eff
+  | .err (.inputLenMismatch e a) =>
+    "err InputLenMismatch " ++ toString e ++ " " ++ toString a ++ " " ++ touchWord p0 r.eff
+  | .err .negativeValues => "err NegativeValues " ++ touchWord p0 r.eff
+  | .err .biPartitioningOnly => "err BiPartitioningOnly " ++ touchWord p0 r.eff
+  | .invalidOrder m a => "err InvalidOrder " ++ toString m ++ " " ++ toString a ++ " " ++ touchWord p0 r.eff
+  | .panic s => "panic " ++ panicClass s
+  | .fellOff => "model-fell-off"
+
+/-- `arr` line: only the state of the array.  When the algorithm body is
+entered the prologue model has nothing to say (`skip`). -/
+def renderArr (p0 : List Nat) (r : Result) : String :=
+  match r.out with
+  | .panic s => "panic " ++ panicClass s
+  | .fellOff => "model-fell-off"
+  | _ =>
+    match sameArray p0 r.eff with
+    | some true => "same"
+    | some false => if (r.eff.apply p0) = some (p0.map fun _ => 0) then "zeros" else "changed"
+    | none => "skip algorithm body entered: its writes are the subject of other properties"
+
+/-- op: `<out|arr> <algo> <np> <p…> <nw> <w…> <npoints> <shape> <graph> <part_count> <iter_count>
+<tolerance f64 bits hex> <order>` -/
+def handle (toks : List String) : String :=
+  match toks with
+  | kind :: algo :: np :: rest =>
+    match (do
+      let a ← algoOfString algo
+      let np ← parseNat? np
+      let (p, rest) ← takeParsed parseNat? np rest
+      match rest with
+      | nw :: rest =>
+        let nw ← parseNat? nw
+        let (ws, rest) ← takeParsed parseInt? nw rest
+        match rest with
+        | [npts, shape, graph, k, iter, tb, order] =>
+          let npts ← parseNat? npts
+          let _ ← parseNat? shape
+          let graph ← parseNat? graph
+          let k ← parseNat? k
+          let _ ← parseNat? iter
+          let tb ← parseHex? tb
+          let order ← parseNat? order
+          some (a, p, ws, npts, graph, k, tb, order)
+        | _ => none
+      | [] => none) with
+    | none => "bad-op"
+    | some (a, p, ws, npts, graph, k, tb, order) =>
+      let i : Input :=
+        { parts := p, weights := ws, points := npts, graph := graph, partCount := k, order := order,
+          tolOk := tolConvertible ws.sum tb,
+          -- assumption (validated by every run): the OBB computations do not panic on the
+          -- finite point sets of the harness
+          obbOk := true }
+      let r := run {} a i
+      if kind == "out" then renderOut p r
+      else if kind == "arr" then renderArr p r
+      else "bad-op"
+  | _ => "bad-op"
 
 end Coupe.Driver.C20
